@@ -404,6 +404,19 @@ static void check_message(int idx, const char *when)
 	ret = mpt_message_get(&C.dq.data, s->data.pos, len, &msg, &vec);
 	VF_CHECK(ret >= 0, "model:message_get:refused", "%s: message_get(pos=%zu, len=%zu) = %d on %s", when, s->data.pos, len, ret, ddesc());
 	if (ret > 0) { C.msg_split = 1; vf_count("state:message-split", 1); }
+	/* the description covers exactly the message and lies inside the ring */
+	{
+		const uint8_t *b = C.dq.data.base, *p = msg.base;
+		size_t described = msg.used + ((ret > 0 && msg.clen) ? vec.iov_len : 0);
+		VF_CHECK(described == len && (ret > 0) == (msg.clen > 0) && msg.clen <= 1 && (!msg.clen || msg.cont == &vec),
+		         "model:message_get:length", "%s: message_get(pos=%zu, len=%zu) = %d describes %zu + %zu bytes in 1 + %zu parts; %s",
+		         when, s->data.pos, len, ret, msg.used, msg.clen ? vec.iov_len : 0, msg.clen, ddesc());
+		VF_CHECK(!msg.used || (p >= b && p + msg.used <= b + C.dq.data.max), "model:message_get:outside-ring",
+		         "%s: first part %zd..+%zu outside ring of %zu", when, (ssize_t) (p - b), msg.used, C.dq.data.max);
+		p = vec.iov_base;
+		VF_CHECK(!msg.clen || !vec.iov_len || (p >= b && p + vec.iov_len <= b + C.dq.data.max), "model:message_get:outside-ring",
+		         "%s: second part %zd..+%zu outside ring of %zu", when, (ssize_t) (p - b), vec.iov_len, C.dq.data.max);
+	}
 	if (len > MAXLEN) len = MAXLEN + 1;
 	if (msg.used) {
 		size_t t = msg.used < len ? msg.used : len;
